@@ -32,8 +32,11 @@ reg("C12", False, "exploration", "", "", "", "3 C12")
 reg("C13", True, "exploration", "property-based differential testing: ASCII vs UTF-8 entry points on generated ASCII haystacks",
     "Random search; patterns may mention non-ASCII characters and fold partners; haystacks over all 128 bytes; every start; both executors and pipelines.",
     "Trusted: fuel hook.", "3 C13")
-for i in (14, 15, 19, 20):
+for i in (14, 15, 20):
     reg("C%02d" % i, False, "exploration", "", "", "", "3 C%02d" % i)
+reg("C19", True, "exploration", "compile-time auto-trait probe + stateful property-based testing (query histories vs fresh compile, Debug snapshot) + generated thread schedules",
+    "(a) a probe crate asserts Regex/Match/Error: Send+Sync at compile time; (b) generated query histories on a long-lived Regex must equal fresh-compile results and leave the compiled program's Debug dump unchanged; (c) 2-16 threads sharing &Regex/clones must reproduce the sequential results.",
+    "(c) samples OS schedules only (no synchronisation exists for a schedule controller to steer); safety rests on (a)+(b). Fuel hook.", "3 C19")
 reg("C16", True, "exploration", "property-based testing: accessor identities + group count/name order from the generator's AST, duplicate names across alternatives",
     "Random search over patterns with named/unnamed/duplicate-named groups (incl. inside lookbehind and loops); every accessor identity is asserted on every match.",
     "Trusted: the generator's AST for group count and names (patterns are valid by construction; a rejected one is reported). Fuel hook.", "3 C16")
